@@ -357,7 +357,7 @@ def run_property(prop, tier, only, jobs):
         cmds = []
         kani_wall = 0.0
         for (crate, z3), hs in by_crate.items():
-            timeout = 3600 if tier == 'thorough' else 1500
+            timeout = 4 * 3600 if tier == 'thorough' else 1500
             res, wall, cmd, logp = run_kani(crate, hs, jobs, timeout, harness_timeout=os.environ.get('VERIF_HARNESS_TIMEOUT', '30m' if tier == 'thorough' else '10m'), z3=z3)
             kani_wall += wall
             cmds.append(cmd if len(cmd) < 400 else cmd[:400] + ' ...')
@@ -440,7 +440,7 @@ def run_property(prop, tier, only, jobs):
                 rec['verdict'] = 'violation'
         else:
             rec['verdict'] = 'undecided'
-            if r['status'] == 'TIMEOUT' and 'thr' in h['flags']:
+            if r['status'] in ('TIMEOUT', 'NO_RESULT') and 'thr' in h['flags']:
                 # resource limit on a thorough-only obligation: recorded in evidence, not an infrastructure failure
                 soft_undecided.append((h['name'], 'solver time-out (thorough-only obligation)'))
             else:
